@@ -56,6 +56,15 @@ def replay(ctx, case):
     from pynetdicom import status as st
 
     c = case["case"]
+    if c[0] == "scu-final":
+        from harness import finality
+
+        finality.R.setup()
+        kind = {"find": "find", "findrq": "find", "get": "get", "move": "move"}[c[1]]
+        cont, out = finality.continued(c[1], kind, c[2])
+        print(c[1], hex(c[2]), st.code_to_category(c[2]), "-> continued" if cont else "-> stopped", out["yields"])
+        final = not (c[1] == "findrq" and c[2] == 0xB001) and st.code_to_category(c[2]) != "Pending"
+        return 0 if cont is not None and (not cont) == final else 1
     if c[0] == "status":
         print("code_to_category", hex(c[1]), "=", st.code_to_category(c[1]))
     else:
